@@ -413,6 +413,7 @@ type Writer struct {
 	Describe func(v ssa.Value) string
 	// Callee for helper summarisation (uint32to24).
 	Callee func(c *ssa.Call) *ssa.Function
+	depth  int
 }
 
 // Fact is one written byte.
@@ -507,6 +508,50 @@ func (w *Writer) Facts(f *ssa.Function) (facts []Fact, unknown []ssa.Instruction
 					}
 					continue
 				}
+				// a helper that writes into a sub-slice of the output it is handed (putUint24(b[1:4], v))
+				if w.Callee != nil && w.depth < 3 {
+					if g := w.Callee(x); g != nil && g.Blocks != nil {
+						handled := false
+						for ai, a := range com.Args {
+							off, _, ok := w.sliceOff(a)
+							if !ok || ai >= len(g.Params) {
+								continue
+							}
+							gp := g.Params[ai]
+							sub := &Writer{IsBase: func(v ssa.Value) bool { return v == ssa.Value(gp) }, Callee: w.Callee, depth: w.depth + 1}
+							hf, hu := sub.Facts(g)
+							if len(hf) == 0 && len(hu) == 0 {
+								continue
+							}
+							handled = true
+							for range hu {
+								unknown = append(unknown, in)
+							}
+							for _, ft := range hf {
+								src, lane := ft.Src.Val, ft.Src.Lane
+								if pp, isP := src.(*ssa.Parameter); isP && pp.Parent() == g {
+									for pi, q := range g.Params {
+										if q == pp && pi < len(com.Args) {
+											var l0 int
+											src, l0 = peelLane(com.Args[pi])
+											if lane >= 0 {
+												lane += l0
+											}
+										}
+									}
+								}
+								d := ft.Src.Desc
+								if src != nil && src != ft.Src.Val {
+									d = desc(src)
+								}
+								facts = append(facts, Fact{Off: off + ft.Off, Src: Src{Val: src, Desc: d, Lane: lane}, At: in})
+							}
+						}
+						if handled {
+							continue
+						}
+					}
+				}
 				if b, ok := com.Value.(*ssa.Builtin); ok && b.Name() == "copy" {
 					off, hi, ok := w.sliceOff(com.Args[0])
 					if !ok {
@@ -568,6 +613,9 @@ func summariseByteLiteral(g *ssa.Function) ([]int, int, bool) {
 	if g.Blocks == nil || len(g.Blocks) != 1 {
 		return nil, 0, false
 	}
+	if lanes, arg, ok := summariseFilledSlice(g); ok {
+		return lanes, arg, true
+	}
 	// find the array alloc and its element stores
 	vals := map[int]ssa.Value{}
 	for _, in := range g.Blocks[0].Instrs {
@@ -614,3 +662,74 @@ func summariseByteLiteral(g *ssa.Function) ([]int, int, bool) {
 	}
 	return lanes, arg, true
 }
+
+// summariseFilledSlice: g(n) allocates a byte slice of constant length, has it filled from n (directly or by a
+// helper such as putUint24(b, n)) and returns it: the lanes of n per byte and n's parameter index.
+func summariseFilledSlice(g *ssa.Function) ([]int, int, bool) {
+	var ret *ssa.Return
+	for _, in := range g.Blocks[0].Instrs {
+		if r, ok := in.(*ssa.Return); ok {
+			ret = r
+		}
+	}
+	if ret == nil || len(ret.Results) != 1 {
+		return nil, 0, false
+	}
+	base := ret.Results[0]
+	n := -1
+	switch x := base.(type) {
+	case *ssa.MakeSlice:
+		if c, ok := x.Len.(*ssa.Const); ok {
+			n = int(c.Int64())
+		}
+	case *ssa.Slice:
+		if al, ok := x.X.(*ssa.Alloc); ok {
+			if at, ok := al.Type().Underlying().(*types.Pointer).Elem().Underlying().(*types.Array); ok {
+				n = int(at.Len())
+			}
+		}
+	}
+	if n <= 0 || n > 8 {
+		return nil, 0, false
+	}
+	w := &Writer{IsBase: func(v ssa.Value) bool { return v == base }, Callee: func(c *ssa.Call) *ssa.Function {
+		if f, ok := c.Call.Value.(*ssa.Function); ok && f.Pkg == g.Pkg {
+			return f
+		}
+		return nil
+	}, depth: 1}
+	facts, unk := w.Facts(g)
+	if len(unk) > 0 || len(facts) != n {
+		return nil, 0, false
+	}
+	lanes := make([]int, n)
+	seen := make([]bool, n)
+	arg := -1
+	for _, ft := range facts {
+		p, ok := ft.Src.Val.(*ssa.Parameter)
+		if !ok || ft.Off < 0 || ft.Off >= n || ft.Src.Lane < 0 {
+			return nil, 0, false
+		}
+		idx := -1
+		for k, gp := range g.Params {
+			if gp == p {
+				idx = k
+			}
+		}
+		if idx < 0 || (arg >= 0 && arg != idx) {
+			return nil, 0, false
+		}
+		arg = idx
+		lanes[ft.Off], seen[ft.Off] = ft.Src.Lane, true
+	}
+	for _, ok := range seen {
+		if !ok {
+			return nil, 0, false
+		}
+	}
+	return lanes, arg, true
+}
+
+// SummariseByteFunc: g(n) returns a fresh byte slice whose bytes are lanes of its parameter n — the lanes per
+// output byte and n's parameter index.
+func SummariseByteFunc(g *ssa.Function) ([]int, int, bool) { return summariseByteLiteral(g) }
